@@ -113,6 +113,7 @@ def describe(rep):
     rep.assume('probe sweeper honours the direct-solver contract (residual 0 iff nodes were computed for the current u[0])',
                'layer 1/2: fixed step size; restart histories (with and without halving of the step size) are explored with the C09 machinery and judged for tiling / chaining / reaching Tend', 'L1 is exact real arithmetic; rounding of time accumulation is only treated in L2',
                'L2 ranges: 0 <= t0 <= 2^20, 2^-10 <= dt <= 2^10; L2 is a counterexample finder with replay, not a proof')
+    rep.assume('adaptive runs (tasks adrun): the real Adaptivity / limiter / restarting / spreading in the real controller with symbolic step sizes, times and error estimates; tiling and exact chaining decided per path (machinery of C09 (d))')
     rep.out_of_scope('controller_MPI, controller_ParaDiag_nonMPI', 'more steps than the bound', 'multi-level runs (value chaining there is covered by C01)')
 
 
@@ -125,10 +126,11 @@ def tasks(tier, seed):
         from harness import c09
 
         T += [t for t in c09.tasks(tier, seed) if t[0] == 'hist' and (len(t) > 7 and t[7] or t[1] <= 2)]
+        T += [t for t in c09.tasks(tier, seed) if t[0] == 'adrun' and t[1] <= 2][:2]
     else:
         from harness import c09
 
-        T += [t for t in c09.tasks(tier, seed) if t[0] == 'hist']
+        T += [t for t in c09.tasks(tier, seed) if t[0] in ('hist', 'adrun')]
         for NP, NMAX in [(1, 12), (2, 12), (3, 12), (4, 12), (5, 12), (6, 12), (7, 12), (8, 12)]:
             T.append(('L1', NP, NMAX))
         T.append(('witness',))
@@ -145,6 +147,10 @@ def run_task(rep, task):
         from harness import c09
 
         return c09.hist_case(rep, *task[1:7], pid=PID, clauses=C06_HIST_CLAUSES, shrink=(task[7] if len(task) > 7 else False))
+    if task[0] == 'adrun':
+        from harness import c09
+
+        return c09.adrun_case(rep, *task[1:], pid=PID, clauses=('tiling', 'chaining'))
     if task[0] == 'L1':
         l1_case(rep, task[1], task[2])
     elif task[0] == 'witness':
@@ -509,6 +515,10 @@ def l2_case(rep, NP, N, cap_s):
 
 def replay(path):
     d = json.load(open(path))['replay']
+    if isinstance(d.get('task'), list) and d['task'] and d['task'][0] in ('hist', 'adrun'):
+        from harness import c09
+
+        return c09.replay(path)
     bad, r = judge_float(d['NP'], d['t0'], d['dt'], d['Tend'])
     print('float run:', r)
     print('violated:', bad)
